@@ -248,7 +248,8 @@ class C08(Check):
             "limits": list(LIMITS),
             "loop_iteration_limit": "0..4, every prefix product and level length +-1, top+1, 2*top+1, 10**9 (nests); "
                                     "every integer 0..7 (c07), 0..k!+2 (loop recursion)",
-            "output_stream_limit": "0,1,2,3,U/2,U-2..U+2,2U+1,10**9",
+            "output_stream_limit": "every integer 0..min(U+2,32), U/2, U-2..U+2, 2U+1, 10**9",
+            "line_endings": "\\r, \\r\\n and \\n\\r occur in literal text, partial text, captured text and data of every family",
             "local_namespace_limit": "0,1,S-1,S,S+1,2S, T-1,T for the first 3 totals, 10**9",
             "context_depth_limit": "every integer 0..(static bound on use + margin), 10**6",
             "block_nesting_limit": "every integer 0..(block depth of the source + 3), 10**6",
